@@ -94,3 +94,24 @@ def install(reg):
         return eng.ev(node.args[0], st)
     reg.module_calls[("copy", "deepcopy")] = deepcopy
     reg.module_calls[("copy", "copy")] = deepcopy
+
+
+# ---------------------------------------------------------------------- clingo Model (assumed)
+TModel = TObj("ClingoModel")
+atoms_of = z3.Function("atoms_of", TModel.sort(), _NS)       # the set of atoms (by name) that are true in the model
+TRUSTED["clingo.Model.symbols(atoms=True)"] = "iterates the true atoms of the model, each once; str(atom) is the atom's name"
+
+
+class ModelModel(ObjModel):
+    def method(self, eng, st, v, meth, args, kw, node, recv_expr=None):
+        if meth == "symbols":
+            return Val(TSet(TPNode), atoms_of(v.t))
+        raise OutOfSubset(f"clingo.Model.{meth}")
+
+
+_pn_install0 = install
+
+
+def install(reg):
+    _pn_install0(reg)
+    reg.add_model(lambda v: v.ty == TModel, ModelModel())
